@@ -307,6 +307,13 @@ def short : Val → String
 
 def b01 (b : Bool) : String := if b then "1" else "0"
 
+/-- the harness's `Describe` cannot name an installed closure (only its presence is observable): print without them -/
+partial def stripPol : Val → Val
+  | .stk f c xs => .stk f { c with ppf := none, vpf := none, rpf := none, eqf := none, umf := none, maf := none, evl := none } (xs.map stripPol)
+  | .cnd f c kw op ex => .cnd f { c with ppf := none, vpf := none, rpf := none, eqf := none, umf := none, maf := none, evl := none } kw op (stripPol ex)
+  | .anys xs => .anys (xs.map stripPol)
+  | v => v
+
 /-- policy interpretation shared with the harness (`polRejects`) -/
 def interp (id : Nat) (v : Val) : Option Nat :=
   let rej : Bool :=
